@@ -731,6 +731,16 @@ def library_structure(text):
                     arrs[d["name"]] = cnt
                     continue
                 sigs[d["name"]] = canon_type(d["type"]) + (d["default"] is not None,)
+        # the internal signal that stands for an output port (the port itself cannot be read): recognised structurally - the
+        # architecture copies exactly one declared internal signal of the port's type to the port, `p <= sig;` - never
+        # by the spelling the compiler chooses for it
+        declared = {d["name"] for d in a["decls"] if d["decl"] == "signal"}
+        copies = {}
+        for st in a["stmts"]:
+            if st["stmt"] == "cassign" and st["target"][0] == "name" and st["target"][1] in outs \
+                    and st["expr"][0] == "name" and st["expr"][1] in declared:
+                copies.setdefault(st["target"][1], []).append(st["expr"][1])
+        buffer_of = {v[0]: p for p, v in copies.items() if len(v) == 1 and sigs[v[0]][:2] == sigs[p][:2] and v[0] not in arrs}
         insts = []
         for s in a["stmts"]:
             if s["stmt"] != "instance":
@@ -769,8 +779,7 @@ def library_structure(text):
                     root, lo, w = str(x), 0, None
                 rk, rw, _ = sigs.get(root, ("?", None, False))
                 akind = "bit" if isbit else rk
-                if root.startswith("buffer_") and root[7:] in outs:
-                    root = root[7:]
+                root = buffer_of.get(root, root)
                 if f in pm:
                     dup = True
                 pm[f] = (root, lo, w, aconv, fconv, akind)
